@@ -448,6 +448,7 @@ class Eval:
 
 
 def clauses_points(ev: Eval, c: dict, im: dict):
+    from AEIC.units import METERS_TO_FEET  # the library's own factor (the clause is about BADA-3, not about the unit table)
     P, eng = c['params'], c['engine']
     prof = c['profile']
     for i in range(len(c['mass'])):
@@ -465,7 +466,7 @@ def clauses_points(ev: Eval, c: dict, im: dict):
             ev.branches.add('thrust-limited')
         if sp['lim'] < 0:
             ev.branches.add('descent-substituted')
-        if h * 3.28084 > P['h_p_des']:
+        if h * METERS_TO_FEET > P['h_p_des']:
             ev.branches.add('descent-high')
         if not close(im['max_climb'][i], sp['max_climb'], 1e-9, at):
             ev.fail('max_climb_thrust_eq_bada3', f'point {i}: impl {im["max_climb"][i]!r} vs BADA-3 {sp["max_climb"]!r}')
@@ -481,7 +482,7 @@ def clauses_points(ev: Eval, c: dict, im: dict):
             if sp['lim'] >= 0 and thr > mx_i + at:
                 ev.fail('thrust_le_max', f'point {i}: thrust {thr!r} > maximum thrust {mx_i!r} (cruise {cr})')
             if sp['lim'] < 0:
-                ds_i = im['descent_high'][i] if h * 3.28084 > P['h_p_des'] else im['descent_low'][i]
+                ds_i = im['descent_high'][i] if h * METERS_TO_FEET > P['h_p_des'] else im['descent_low'][i]
                 if not close(thr, ds_i, 1e-9, at):
                     ev.fail('negative_thrust_replaced', f'point {i}: limited thrust {sp["lim"]!r} < 0 but thrust {thr!r} '
                                                         f'is not the descent thrust {ds_i!r}')
